@@ -1,3 +1,14 @@
-(** Correspondence runner for C04: the property's own projection of a recorder history. *)
-From Playback Require Export Run.RunRec.
-Definition check_case : case -> bool := check_with (fun m i => eq_outcome m i && eq_trace m i).
+(** Correspondence runner for C04: (a) the property's own projection of a recorder history (outcome and
+    trace against the model of the decorators); (b) racing threads (Run/RunRace.v). *)
+From Playback Require Export Run.RunRec Run.RunRace.
+
+Inductive case04 :=
+| H (c : RunRec.case)
+| T (v : variant) (m0 m1 : meth) (m2 : option meth) (e f : nat) (observed : race_obs).
+Definition case := case04.
+
+Definition check_case (c : case) : bool :=
+  match c with
+  | H hc => check_with (fun m i => eq_outcome m i && eq_trace m i) hc
+  | T v m0 m1 m2 e f o => eq_race (model_race v m0 m1 m2 e f) o
+  end.
